@@ -209,6 +209,34 @@ def systematic():
                 qs.append(grp(a, {"t": "union", "gs": [grp(b), grp(c3)]}, c3))
                 qs.append(grp(a, {"t": "filter", "e": {"e": "notexists", "g": grp(b)}}, c3))
                 qs.append(grp({"t": "values", "vars": ["x"], "rows": [[I("n1")], [I("n2")]]}, {"t": "minus", "g": grp(b)}, c3))
+    # a data block is a multiset of rows: one that lists a value twice, AFTER the pattern that binds its variable (and after OPTIONAL / UNION)
+    for a in A_POOL[:4]:
+        for rows, vs in (([[I("n1")], [I("n1")], [I("n2")]], ["x"]), ([[N(1)], [N(1)], [N(2)], [N(1)]], ["y"]), ([[I("n1"), N(1)], [I("n1"), N(1)], [I("n2"), N(2)]], ["x", "y"]),
+                         ([[I("n2")], [I("n2")]], ["y"])):
+            vb = {"t": "values", "vars": vs, "rows": rows}
+            qs.append(grp(a, vb))
+            qs.append(grp(a, {"t": "optional", "g": grp(B_POOL[0])}, vb))
+            qs.append(grp({"t": "union", "gs": [grp(a), grp(B_POOL[3])]}, vb))
+            qs.append(grp(a, {"t": "group", "g": grp(vb)}))
+            qs.append(grp(a, {"t": "optional", "g": grp(vb)}))
+            qs.append(grp(a, {"t": "filter", "e": {"e": "exists", "g": grp(vb)}}))
+            qs.append(grp(a, {"t": "minus", "g": grp(vb)}))
+    # chains of three and more joined groups: each part is evaluated on its own, the bindings of the earlier parts are not visible inside a later
+    # one (a sub-select that uses a variable it does not project, a nested group whose FILTER looks at a variable bound outside only)
+    for a in A_POOL[:3]:
+        for b in B_POOL[:3]:
+            lasts = [{"t": "subselect", "q": {"form": "select", "proj": ["x"], "where": grp(bgp((V("x"), I("q"), V("y"))))}},
+                     {"t": "subselect", "q": {"form": "select", "proj": ["z"], "where": grp(bgp((V("z"), I("p"), V("y")), (V("z"), I("q"), V("x"))))}},
+                     {"t": "group", "g": grp(bgp((V("x"), I("q"), V("k"))), {"t": "filter", "e": {"e": "bound", "v": "y"}})},
+                     {"t": "group", "g": grp(bgp((V("x"), I("q"), V("k"))), {"t": "filter", "e": {"e": "!", "a": {"e": "bound", "v": "y"}}})},
+                     {"t": "group", "g": grp(bgp((V("u"), I("p"), V("k"))), {"t": "filter", "e": {"e": "=", "a": ev("k"), "b": ev("y")}})},
+                     {"t": "group", "g": grp(bgp((V("x"), I("p"), V("k"))), {"t": "bind", "e": {"e": "coalesce", "args": [ev("y"), ec(N(0))]}, "v": "c"})}]
+            for c3 in lasts:
+                ga, gb = {"t": "group", "g": grp(a)}, {"t": "group", "g": grp(b)}
+                qs.append(grp(ga, gb, c3))
+                qs.append(grp(ga, {"t": "union", "gs": [grp(b), grp(a)]}, c3))
+                qs.append(grp(ga, gb, {"t": "group", "g": grp(a)}, c3))
+                qs.append(grp(a, gb, c3))
     # EXISTS / NOT EXISTS / MINUS / OPTIONAL evaluated inside GRAPH ?g: the active graph is part of what the inner pattern sees
     for a in A_POOL[:4]:
         for b in B_POOL[:3]:
